@@ -288,9 +288,18 @@ Definition rn_color_view_of (c : color) : rn_color_view :=
 (* ---- vocabulary of the function translator, part 2 (core::fmt / io::Write side of Generated/RenderFn.v).
    Definitions only; nothing above uses them. *)
 
-(* Formatter::write_str as the translated code calls it: the new formatter and the fmt::Result.
-   The sink (a String / Vec) never fails: Ok(()) *)
-Definition rn_fw_write_str (f : rn_fmt) (s : list N) : rn_fmt * (unit + unit) := (rn_f_write_str f s, inl tt).
+(* the Formatter the translated code works on: the hand model's [rn_fmt] over a sink (the `dyn fmt::Write` a
+   Formatter wraps) that answers each write_str from a script -- [true] / exhausted: the text is appended, Ok(());
+   [false]: fmt::Error, nothing appended.  A String / Vec sink is the empty script. *)
+Record rn_fmtr : Set := mkRnFmtr { fr_fmt : rn_fmt; fr_script : list bool }.
+Definition fr_alternate (f : rn_fmtr) : bool := fm_alternate (fr_fmt f).          (* Formatter::alternate *)
+(* Formatter::write_str as the translated code calls it: the new formatter and the fmt::Result *)
+Definition rn_fw_write_str (f : rn_fmtr) (s : list N) : rn_fmtr * (unit + unit) :=
+  match fr_script f with
+  | false :: t => (mkRnFmtr (fr_fmt f) t, inr tt)
+  | true :: t => (mkRnFmtr (rn_f_write_str (fr_fmt f) s) t, inl tt)
+  | [] => (mkRnFmtr (rn_f_write_str (fr_fmt f) s) [], inl tt)
+  end.
 
 (* struct NullFormatter(&'static str), struct StyleDisplay(Style): the field itself *)
 Definition rn_nf_f0 (x : list N) : list N := x.
